@@ -141,6 +141,98 @@ theorem builder_dropEnv_partial (ws : List WOp) (hw : ∀ w ∈ ws, CleanW w) :
   unfold evT at s
   rw [s]; simp
 
+/-- One bracketed write of the adapter under no override: switch, write, switch back. -/
+theorem bracket_K (b : Buffer) (m : Mode) (hm : m ≠ .raw) (f : Buffer → Buffer) (acc dacc pa sa : List Tok)
+    (k : KInv b acc dacc)
+    (hf : ∀ c, KInv c acc dacc → c.mode = m → KInv (f c) (acc ++ pa) (dacc ++ sa)) :
+    KInv ((f (b.setMode m)).setMode b.mode) (acc ++ pa) (dacc ++ sa) :=
+  setMode_K _ _ _ _ (hf _ (setMode_K b m acc dacc k) (setMode_mode b m))
+
+/-- The printer's SafeWriter adapter under no override: the same two readings. -/
+theorem adapterStep_K (p : PPB) (w : WOp) (acc dacc : List Tok) (k : KInv p.buf acc dacc) (ho : p.override = .no)
+    (hw : CleanW w) (hnp : ∀ r, w ≠ .print r) :
+    KInv (adapterStep p w).buf (acc ++ plainW w) (dacc ++ safeW w) ∧ (adapterStep p w).override = .no := by
+  have wr : ∀ (m : Mode) (hm : m ≠ .raw) (s : List Byte), endsAscii s = true → ∀ c, KInv c acc dacc → c.mode = m →
+      KInv (c.write s) (acc ++ pendPlainT m s) (dacc ++ pendSafeT m s) := by
+    intro m hm s hs c kc hcm
+    have := write_K c s acc dacc kc (fun h => by rw [hcm] at h; exact absurd h hm) (fun _ => hs)
+    rw [hcm] at this; exact this
+  cases w with
+  | print r => exact absurd rfl (hnp r)
+  | safeString s =>
+    have := bracket_K p.buf .safeEsc (by decide) (·.write s) acc dacc _ _ k (wr .safeEsc (by decide) s hw)
+    simpa [adapterStep, PPB.startSafeOverride, PPB.restore, PPB.onBuf, ho, pendPlainT, pendSafeT, plainW, safeW] using this
+  | safeNum s =>
+    have := bracket_K p.buf .safeEsc (by decide) (·.write s) acc dacc _ _ k (wr .safeEsc (by decide) s hw)
+    refine ⟨?_, by simp [adapterStep, PPB.startSafeOverride, PPB.startUnsafe, PPB.restore, PPB.onBuf, ho]⟩
+    have e : (adapterStep p (.safeNum s)).buf = (((p.buf.setMode .safeEsc).write s).setMode .safeEsc).setMode p.buf.mode := by
+      simp [adapterStep, PPB.startSafeOverride, PPB.startUnsafe, PPB.restore, PPB.onBuf, ho, setMode_mode]
+    rw [e]
+    have k2 := wr .safeEsc (by decide) s hw _ (setMode_K p.buf .safeEsc acc dacc k) (setMode_mode _ _)
+    have := setMode_K _ p.buf.mode _ _ (setMode_K _ .safeEsc _ _ k2)
+    simpa [pendPlainT, pendSafeT, plainW, safeW] using this
+  | unsafeString s =>
+    have := bracket_K p.buf .unsafeEsc (by decide) (·.write s) acc dacc _ _ k (wr .unsafeEsc (by decide) s hw)
+    simpa [adapterStep, PPB.startUnsafe, PPB.restore, PPB.onBuf, ho, pendPlainT, pendSafeT, plainW, safeW] using this
+  | safeByte x =>
+    have hx : x < 0x80 := hw
+    have he : endsAscii [x] = true := by simp [endsAscii, hx]
+    have := bracket_K p.buf .safeEsc (by decide) (·.writeByte x) acc dacc _ _ k
+      (fun c kc hcm => by rw [writeByte_ascii c x kc.inv hx]; exact wr .safeEsc (by decide) [x] he c kc hcm)
+    simpa [adapterStep, PPB.startSafeOverride, PPB.restore, PPB.onBuf, ho, pendPlainT, pendSafeT, plainW, safeW,
+      tokenize_ascii x hx, escT] using this
+  | unsafeByte x =>
+    have hx : x < 0x80 := hw
+    have he : endsAscii [x] = true := by simp [endsAscii, hx]
+    have := bracket_K p.buf .unsafeEsc (by decide) (·.writeByte x) acc dacc _ _ k
+      (fun c kc hcm => by rw [writeByte_ascii c x kc.inv hx]; exact wr .unsafeEsc (by decide) [x] he c kc hcm)
+    simpa [adapterStep, PPB.startUnsafe, PPB.restore, PPB.onBuf, ho, pendPlainT, pendSafeT, plainW, safeW,
+      tokenize_ascii x hx, escT] using this
+  | safeRune r =>
+    have := bracket_K p.buf .safeEsc (by decide) (·.writeRune r) acc dacc _ _ k (wr .safeEsc (by decide) (encodeRune r) hw)
+    simpa [adapterStep, PPB.startSafeOverride, PPB.restore, PPB.onBuf, ho, pendPlainT, pendSafeT, plainW, safeW] using this
+  | unsafeRune r =>
+    have := bracket_K p.buf .unsafeEsc (by decide) (·.writeRune r) acc dacc _ _ k (wr .unsafeEsc (by decide) (encodeRune r) hw)
+    simpa [adapterStep, PPB.startUnsafe, PPB.restore, PPB.onBuf, ho, pendPlainT, pendSafeT, plainW, safeW] using this
+
+
+theorem adapterRun_K (p : PPB) (ws : List WOp) (acc dacc : List Tok) (k : KInv p.buf acc dacc) (ho : p.override = .no)
+    (hw : ∀ w ∈ ws, CleanW w ∧ ∀ r, w ≠ .print r) :
+    KInv (adapterRun p ws).buf (acc ++ ws.flatMap plainW) (dacc ++ ws.flatMap safeW) := by
+  induction ws generalizing p acc dacc with
+  | nil => simpa [adapterRun] using k
+  | cons w r ih =>
+    have ⟨k1, o1⟩ := adapterStep_K p w acc dacc k ho (hw w (by simp)).1 (hw w (by simp)).2
+    have := ih (adapterStep p w) _ _ k1 o1 (fun w' hw' => hw w' (by simp [hw']))
+    simpa [adapterRun, List.flatMap_cons, List.append_assoc] using this
+
+/-- **C09 on the printer's SafeWriter adapter** (the SafePrinter handed to `SafeFormat` / `Sprintfn`,
+no enclosing Safe/Unsafe wrapper): the same two readings as on the StringBuilder. -/
+theorem adapter_strip_partial (ws : List WOp) (hw : ∀ w ∈ ws, CleanW w ∧ ∀ r, w ≠ .print r) :
+    stripMarkers (adapterRun {} ws).buf.redactableBytes = untok (ws.flatMap plainW) := by
+  have k := adapterRun_K {} ws [] [] kinv_init rfl hw
+  have ⟨_, p, _⟩ := finalize_K _ _ _ k
+  unfold stripMarkers Buffer.redactableBytes
+  rw [p]; simp
+
+theorem adapter_dropEnv_partial (ws : List WOp) (hw : ∀ w ∈ ws, CleanW w ∧ ∀ r, w ≠ .print r) :
+    dropEnv (adapterRun {} ws).buf.redactableBytes = untok (ws.flatMap safeW) := by
+  have k := adapterRun_K {} ws [] [] kinv_init rfl hw
+  have ⟨_, _, s⟩ := finalize_K _ _ _ k
+  have ⟨f, _, _⟩ := finalize_full _ k.inv
+  unfold dropEnv Buffer.redactableBytes dropEnvT
+  rw [(dropEnv_eq_safeText _).1 (scanWF_of_scan _ _ _ f.sc)]
+  unfold evT at s
+  rw [s]; simp
+
+/-- Hence the two implementations agree on both readings for every such call sequence. -/
+theorem builder_adapter_agree_partial (ws : List WOp) (hw : ∀ w ∈ ws, CleanW w ∧ ∀ r, w ≠ .print r) :
+    stripMarkers (adapterRun {} ws).buf.redactableBytes = stripMarkers (builderRun Buffer.init ws).redactableBytes ∧
+    dropEnv (adapterRun {} ws).buf.redactableBytes = dropEnv (builderRun Buffer.init ws).redactableBytes := by
+  rw [adapter_strip_partial ws hw, adapter_dropEnv_partial ws hw,
+    builder_strip_partial ws (fun w h => (hw w h).1), builder_dropEnv_partial ws (fun w h => (hw w h).1)]
+  exact ⟨rfl, rfl⟩
+
 /-- The hypothesis matters: a payload ending inside a multi-byte sequence gets a `?` when the
 mode is switched right after it. -/
 theorem tail_fix_visible :
